@@ -72,6 +72,19 @@ CHECKS = {
    text="Merge laws and merge-patch semantics on real eni_conf keys; generated CNI chain coherence over plugin lists x kernel features x recorded capabilities.",
    design_ref="DESIGN.md 2.6, 5 (C20)",
    note="Needs root for unshare -m -n; malformed JSON and float members outside the domain."),
+
+ "C10": dict(
+   technique="TLA+ spec PodEni.tla (phase machine, cloud ENIs, Enforce-tagged C10 guards) model-checked by TLC; TLC-simulated, enumerated and random scenarios drive the real ReconcilePod / ReconcilePodENI / collectors on one fake API server + fake cloud with a gate before every API or cloud call; traces validated by TLC",
+   category="model_checking",
+   text="Every PodENI phase write, every attach/detach/delete cloud call (with the liveness of the bound pod at that moment) and the quiescent state of each scenario must be a behaviour of PodEni.tla with the C10 guards on: documented phase steps only, no pull from a live pod instance, non-fixed deletion ends with ENI and record gone, partial creation failure leaves no unrecorded ENI.",
+   design_ref="DESIGN.md 4.4, 5 (C10), 11.6",
+   note="Reads are fresh (no informer staleness); D10 edges tolerated by default (VERIF_C10_STRICT=1 makes them violations); known finding D18."),
+ "C11": dict(
+   technique="same machinery as C10 with Enforce={C11}: release strategies around the TTL boundary by shifting stored timestamps, cloud ENI populations for the leak collector",
+   category="model_checking",
+   text="Fixed-IP records keep their allocation set, are only reaped when no allocation says keep (Never = forever, TTL since last seen), are re-bound to the recreated pod; the leak collector only touches ENIs with both cluster tags, older than the grace period and unreferenced.",
+   design_ref="DESIGN.md 4.4, 5 (C11), 11.6",
+   note="Virtual time by data (stored timestamps shifted), 1 s slack for second-granular time stamps; known finding D18."),
 }
 
 NA_REASON = "not built yet in this round of work; see DESIGN.md section 10 (build order) - the property is planned to be decided by the TLA+ pipeline"
